@@ -13,6 +13,7 @@ REGISTRY = {
     "C13": "statecache",
     "C14": "hashstream",
     "C17": "lazyindex",
+    "C18": "storagemap",
     "C19": "treemerge",
     "C20": "serialize",
     "C01": "objectstore",
